@@ -20,9 +20,9 @@ ChainOf(f) == CASE f = "NAME" -> "REQ&TYPE[STRING]" [] f = "LEVEL" -> "OPT&ENUM[
 Required(f) == f \in {"NAME", "COUNT"}
 AllStates == {"ok", "ok2", "bad", "missing", "null", "dup_ok_last", "dup_bad_last", "ambig", "casefold", "casefold2",
               "numstr", "numstr_out", "numbad", "numover", "numfloat", "numbig", "dup_numstr", "dup_casefold", "numedge", "numedge_ok",
-              "casefold3", "casefold1"}
+              "casefold3", "casefold1", "casefold_pad", "casefold_padlow"}
 Applicable(f, st) ==
-  CASE st \in {"ambig", "casefold", "casefold2", "dup_casefold"} -> f = "LEVEL"
+  CASE st \in {"ambig", "casefold", "casefold2", "dup_casefold", "casefold_pad", "casefold_padlow"} -> f = "LEVEL"
     [] st \in {"casefold3", "casefold1"} -> f = "MODE"
     [] f = "MODE" -> st \in {"ok", "bad", "missing", "null"}
     [] st \in {"numstr", "numstr_out", "numbad", "numover", "numfloat", "numbig", "dup_numstr", "numedge", "numedge_ok"} -> f = "COUNT"
@@ -40,6 +40,8 @@ ValueTexts(f, st) ==
     [] st = "dup_numstr" -> <<"\"7\"", "\"7\"">> [] st = "dup_casefold" -> <<"HIGH", "HIGH">>
     [] st = "casefold3" -> <<"lOw">>          \* matches Low, LOW and low when case is ignored: ambiguous, must stay as written
     [] st = "casefold1" -> <<"high">>         \* matches only HIGH when case is ignored
+    [] st = "casefold_pad" -> <<"\" HIGH \"">>     \* blanks around a word that differs in case: more than letter case separates it from the member - stays
+    [] st = "casefold_padlow" -> <<"\"low \"">>    \* blanks around a member: not the member, and no change of case makes it one - stays
     [] st = "numedge" -> <<"10.000000000000002">>        \* the float next above the bound: out of RANGE[1,10] as long as no digit is lost
     [] st = "numedge_ok" -> <<"9.999999999999998">>      \* the float next below it
     [] OTHER (* numfloat *) -> <<"\"2.5\"">>
